@@ -3,7 +3,7 @@ From Coq Require Import ZArith List Bool Floats.SpecFloat.
 From GeosV.Lib Require Import GenPreludeF.
 From GeosV.C04 Require Import GenPreludePM PrecDefs.
 From GeosV.C04 Require GenPreludeHP.
-From GeosV.Gen Require PM_makePrecise HP_intersectsScaled.
+From GeosV.Gen Require PM_makePrecise HP_intersectsScaled HP_intersectsPt.
 Local Open Scope Z_scope.
 
 (* PrecisionModel(scale).makePrecise(v), on bit patterns, through the generated makePrecise *)
@@ -19,3 +19,7 @@ Definition hp_run (cx cy p0x p0y p1x p1y : Z) : bool * bool * bool :=
 (* the same with ordinates given directly in half units (end points at half-integer scaled coordinates) *)
 Definition hp_run_half (hx hy p0x p0y p1x p1y : Z) : bool * bool * bool :=
   (hp_gen hx hy p0x p0y p1x p1y, hp_model hx hy p0x p0y p1x p1y, meets_fm hx hy p0x p0y p1x p1y).
+(* HotPixel(centre).intersects(p), half units, through the generated unit; and the half-open square *)
+Definition hp_pt (hx hy x y : Z) : bool * bool :=
+  (HP_intersectsPt.g_intersectsPt (GenPreludeHP.mkHP hx hy) (x, y),
+   (hx - 1 <=? x) && (x <? hx + 1) && (hy - 1 <=? y) && (y <? hy + 1)).
